@@ -101,9 +101,15 @@ class Lrn03(Learner):
         info = CobaContext.learning_info
         info['lrn'] = f'L{self.l}'
         info['n_taught'] = len(self.hist)
+        info[f'L{self.l}_calls'] = self.calls.get(('learn', context[0]), 0)      # a key only this learner writes (stale entries stay visible)
         info['sum_taught'] = sum(int(r) for _, _, r in self.hist)
         self._call('learn', context)
         self.hist.append((tuple(context), action, reward))
+
+
+def env_index(environment):
+    """The index of the Env03 behind an environment (bare, or the source of a [Env03, Chunk, ...] pipeline)."""
+    return environment.e if hasattr(environment, 'e') else environment[0].e
 
 
 class _ValFaults:
@@ -125,7 +131,7 @@ class Seq03(SequentialCB, _ValFaults):
         return {**SequentialCB.params.fget(self), 'tag': f'V{self.v}'}
 
     def evaluate(self, environment, learner):
-        msg = self._eval_faults.get((environment.e, learner.l))
+        msg = self._eval_faults.get((env_index(environment), learner.l))
         if msg: raise Fault03(msg)
         return SequentialCB.evaluate(self, environment, learner)
 
@@ -141,7 +147,7 @@ class Scr03(Evaluator, _ValFaults):
         return {'tag': f'V{self.v}'}
 
     def evaluate(self, environment, learner):
-        msg = self._eval_faults.get((environment.e, learner.l))
+        msg = self._eval_faults.get((env_index(environment), learner.l))
         if msg: raise Fault03(msg)
         for i, inter in enumerate(environment.read()):
             a, p = learner.predict(inter['context'], inter['actions'])
@@ -158,7 +164,18 @@ def n_calls(kind, e, v):
     return (n + 1) // 2
 
 
-def build_components(faults=()):
-    """Fresh (envs, learners, evaluators) with the faults armed."""
+def build_components(faults=(), chunk=None):
+    """Fresh (envs, learners, evaluators) with the faults armed.
+    chunk: None (bare environments) | 'per-env' (each environment piped into its own Chunk filter, like
+    Environments.chunk(cache=False)) | 'shared' (both environments piped into ONE Chunk object, so that every task
+    that has an environment lands in the same chunk of ChunkTasks / the same ProcessTasks.filter call)."""
+    from coba.pipes import Pipes
+    from coba.environments import Chunk
     faults = list(faults)
-    return ([Env03(0, faults), Env03(1, faults)], [Lrn03(0, faults), Lrn03(1, faults)], [Seq03(0, faults), Scr03(1, faults)])
+    envs = [Env03(0, faults), Env03(1, faults)]
+    if chunk == 'per-env': envs = [Pipes.join(e, Chunk()) for e in envs]
+    elif chunk == 'shared':
+        c = Chunk()
+        envs = [Pipes.join(e, c) for e in envs]
+    elif chunk is not None: raise ValueError(chunk)
+    return (envs, [Lrn03(0, faults), Lrn03(1, faults)], [Seq03(0, faults), Scr03(1, faults)])
